@@ -17,6 +17,30 @@ CHECKS = {
    text="TLC enumerates the configuration model and validates each recorded load against the configuration relations (SetFlagsRel, SetFilterRel) and the 20-clause WellFormed predicate, which is written from the property and independent of hwloc_topology_check(); hwloc_topology_check() itself is run in a forked child and its abort is one clause. The source x configuration product is sampled per source in the quick tier and much wider in the thorough tier.",
    design_ref="DESIGN.md section 6, C01",
    note="Trusted: TLC, the projection code in harness/project.h (public accessors only). Not covered: backends that need hardware not present; RESTRICT_TO_*BINDING flags on the live machine."),
+ "C02": dict(
+   technique="TLA+ model of histories of public modifying calls (spec/MC_TopoOps.tla: BFS over every edge to depth 2 + simulation to depth 8-10, valid and invalid arguments) replayed on the rebuilt library; after every call TLC evaluates the per-call relation of spec/TopoOps.tla, the WellFormed predicate, gp_index/userdata stability and unchanged-on-error on the recorded projections (spec/TraceTopo.tla)",
+   category="model_checking",
+   text="Each call of each history is judged by a relation transcribed from hwloc.h (what must change, what must not, which errors leave the topology untouched) plus the full C01 predicate, on the complete projection of the topology; histories come from exhaustive enumeration of the bounded model's edges (sampled with VERIF_SEED in the quick tier) and from TLC simulation.",
+   design_ref="DESIGN.md section 6, C02",
+   note="Trusted: TLC, projection code. Distances/memattr/cpukind store contents are judged by C13/C14/C15; here only their effect on the object tree. ENOMEM and backend-only entry points are not driven."),
+ "C08": dict(
+   technique="TLA+ design model of restrict on resources (spec/MC_Restrict.tla: all 33 flag words x argument sets, once and twice; invariants NeverEmpty/Monotone/ComposeOK) whose state-graph edges are replayed on the rebuilt library over nine topology families x filter presets; TLC evaluates RestrictRel (14 named checks, spec/TopoOps.tla) between the projections before and after each call",
+   category="model_checking",
+   text="RestrictRel states exactly the property: required and allowed failures with the topology unchanged, exact new sets for every survivor, PUs/NUMA nodes kept iff in the set, disappearance only by emptiness or level merging, Misc/I-O dropped or re-attached per the ADAPT flags, survivors below their closest surviving ancestor, WellFormed afterwards. Every (flags, set) pair of the bounded model is an implementation test in the thorough tier; the quick tier takes a seeded stripe.",
+   design_ref="DESIGN.md section 6, C08",
+   note="Trusted: TLC, projection code. Which of two mergeable levels survives a KEEP_STRUCTURE merge is not asserted. Topologies are synthetic families (<= 8 PUs) plus an XML-rendered I/O subtree."),
+ "C11": dict(
+   technique="TLC-checked TLA+ specification of the type vocabulary, the string-contract relations and a reference print/parse/compare implementation (spec/Types.tla, MC_Types.tla); TLC enumerates the reachable attribute product x flag words, each transition is replayed on the ASan-built library with guard bytes, and every recorded event is validated by TLC against the relations (spec/TraceTypes.tla)",
+   category="model_checking",
+   text="Every relation of the property is checked on the real code for the entire bounded product: all 20 types, all load-reachable attribute values, all flag words, every buffer size 0..needed+1, all 400 compare pairs, and all objects of the bundled XML inputs; the reference model is shown by TLC to satisfy the relations. Not a proof for arbitrary info-attribute contents or strings outside the sweep.",
+   design_ref="DESIGN.md section 6, C11",
+   note="Trusted: enum values of the pinned hwloc.h, the recorder's projection (guard counts, first NUL), XML load as the only source of objects. One known finding (mixed unified/data cache level prints two texts)."),
+ "C12": dict(
+   technique="the C02 model with two topology slots (spec/MC_TopoOps.tla, TwoSlots): histories of modifications, dup, modifications on either copy, destroy in either order, replayed on the rebuilt ASan library; TLC checks DupRel (full projection equality including userdata pointers and XML export digest) and, after every later call, that the copy that was not the target reports exactly the same projection and digest (spec/TraceTopo.tla)",
+   category="model_checking",
+   text="Equivalence is equality of the complete public projection plus the XML export digest; independence is the frame condition evaluated after every call on the other copy; invalid accesses at destroy are observed by ASan in the recorder (Crash event, which the specification rejects).",
+   design_ref="DESIGN.md section 6, C12",
+   note="Trusted: TLC, projection code. 'Shares no mutable storage' is decided observationally (the other copy never moves, no sanitizer event), not by pointer analysis; leak detection is not yet wired."),
 }
 NA_REASON = {}
 
